@@ -57,11 +57,50 @@ func NewCompositeSequenceDFA(re *syntax.Regexp) *CompositeSequenceDFA {
 		}
 	}
 
+	// SearchAt restarts at the byte that killed the previous attempt and never
+	// looks at the start positions in between. That is only sound when no match
+	// can begin inside the consumed region (see compositeRestartIsSound). Otherwise
+	// ([ax]+[by]+[ax]+[cz]+ on "ababac": the match starts at 2, inside the
+	// region consumed from 0) decline and let the caller use a general engine.
+	if !compositeRestartIsSound(parts) {
+		return nil
+	}
+
 	d := &CompositeSequenceDFA{parts: parts}
 	d.buildByteClasses(parts)
 	d.buildDFASubsetConstruction(parts)
 
 	return d
+}
+
+// compositeRestartIsSound reports whether SearchAt may skip the start positions
+// inside a region it has consumed without reaching an accepting state. A match
+// could begin there only at a byte of the first class that the failed attempt
+// had assigned to a later part. A byte assigned to the LAST part means an
+// accepting state was reached (the attempt returns a match instead), so only
+// the middle parts matter: the restart is sound when every middle class is
+// disjoint from the first class, or when the first class contains every later
+// class (the first part could then absorb everything before a later start, so
+// the earlier attempt subsumes the later one).
+func compositeRestartIsSound(parts []*charClassPart) bool {
+	first := &parts[0].membership
+	middleDisjoint, superset := true, true
+	for i, p := range parts[1:] {
+		isLast := i == len(parts)-2
+		for b := 0; b < 256; b++ {
+			if !p.membership[b] {
+				continue
+			}
+			if first[b] {
+				if !isLast {
+					middleDisjoint = false
+				}
+			} else {
+				superset = false
+			}
+		}
+	}
+	return middleDisjoint || superset
 }
 
 // buildByteClasses creates byte equivalence classes from the pattern's char classes.
